@@ -1,10 +1,10 @@
 """C11 Layout stages never change program structure or string contents (exploration: bounded run-time contracts; tiny deductive part)."""
 from pyvc.tables import run_gen
-from contracts import c_sub, c_layout
+from contracts import c_sub, c_layout, c_validity
 
 
 def units():
-    return [c_sub.string_lines] + c_layout.UNITS
+    return [c_sub.string_lines, c_validity.fix_import_spacing] + c_layout.UNITS
 
 
 def extra(tier, seed):
@@ -23,7 +23,7 @@ META = {
                    "Deductive part (small): processing.keep_syntax_tree returns its first argument unless the second has the same tree "
                    "(contract on the real function, equivalence as an uninterpreted predicate), the splice loop of _do_rewrite exempts "
                    "exactly the content lines of a triple-quoted literal from re-indentation and exactly the lines ending inside it from "
-                   "trailing-whitespace removal, and format_code / fix_too_many_blank_lines / fix_line_lengths route every whole-text "
+                   "trailing-whitespace removal, and format_code / fix_too_many_blank_lines / fix_line_lengths / fix_import_spacing route every whole-text "
                    "layout transform through that guard (dataflow obligations on the real AST). "
                    "Bounded part: run-time contract tree(stage(s)) == tree(s) for each stage and for the layout sequence, over generated "
                    "modules with literals of 5 prefixes x 20 contents (tabs, blank-line runs, trailing blanks, long lines) x single / "
